@@ -117,12 +117,7 @@ pub fn sel_json(store: &AnnotationStore, names: &Names, sel: &Selector) -> Value
                     _ => subs.push(sel_json(store, names, sub)),
                 }
             }
-            for j in subs.iter_mut() {
-                // the alignment of a relative offset inside a complex selector is normalised by range compression
-                if j["k"] == "AnnotationSelector" && j.get("mode").is_some() {
-                    j["mode"] = json!("-");
-                }
-            }
+
             let directional = matches!(sel, Selector::DirectionalSelector(_));
             if !directional {
                 subs.sort_by_key(|x| x.to_string());
